@@ -975,3 +975,45 @@ func (x *fnExec) atMapUpdate(fr *frame, st *State, mu *ssa.MapUpdate) {
 		o.skolems = sk
 	}
 }
+
+// atReturn emits "at return assert" obligations: like postconditions, but the function's locals are visible.
+func (x *fnExec) atReturn(fr *frame, st *State, ret *ssa.Return, rv Val) {
+	if fr.C == nil || fr.inline || fr.depth != 0 || len(fr.C.AtReturns) == 0 {
+		return
+	}
+	pos := ret.Pos()
+	if !pos.IsValid() {
+		if fd := fr.C.Decl; fd != nil && fd.Body != nil {
+			pos = fd.Body.Rbrace
+		}
+	}
+	for _, c0 := range fr.C.AtReturns {
+		cl := *c0
+		clp := &cl
+		clp.Bound = append([]BoundVar(nil), c0.Bound...)
+		var extra []string
+		res := fr.fn.Signature.Results()
+		for i := 0; i < res.Len(); i++ {
+			v := res.At(i)
+			if v.Name() != "" && v.Name() != "_" {
+				continue
+			}
+			name := "result"
+			if res.Len() > 1 {
+				name = fmt.Sprintf("result%d", i)
+			}
+			extra = append(extra, name+" "+types.TypeString(v.Type(), x.P.qualifier))
+		}
+		x.P.bindClauseAt(fr.C, clp, pos, extra)
+		if clp.Info == nil {
+			x.errors = append(x.errors, fmt.Sprintf("at return in %s: %v", fr.C.Key, clp.Err))
+			continue
+		}
+		vars := copyVars(fr.vars)
+		x.bindResults(vars, fr.fn, clp, rv)
+		env := &specEnv{x: x, vars: vars, cur: st, old: fr.entry, info: clp.Info, fr: fr, at: ret}
+		goal, hyp, sk := env.clauseGoal(clp)
+		o := x.obligation(st, fr.C.Key+":at return:assert#"+clp.Label, "assert", "return at "+x.P.Fset.Position(pos).String(), clauseTags(fr.C, clp), goal, hyp, clp.Src)
+		o.skolems = sk
+	}
+}
